@@ -32,5 +32,9 @@ m["checks"] = checks
 m["not_applicable"] = na
 m["engines"][0]["serves_properties"] = [c["property_id"] for c in checks]
 m["hooks"]["baseline_off_cmd"] = base["cmd"]
+import subprocess
+log = subprocess.run(["git", "-C", "/repo", "log", "--format=%h %s"], capture_output=True, text=True).stdout.strip().split("\n")
+m["hooks"]["source_commits"] = [l.split(" ")[0] for l in log if l.split(" ", 1)[1].startswith("verif:")]
+m["hooks"]["add_only"] = True
 json.dump(m, open(os.path.join(VERIF, "MANIFEST.json"), "w"), indent=1)
 print("checks:", [c["property_id"] for c in checks])
